@@ -50,7 +50,7 @@ ATTR = {
     ("Result", "permission_error"): ("{o}.permErr", "Bool"),
     ("Result", "undefined_error"): ("{o}.undefErr", "Bool"),
 }
-STOREF = {("ObsObj", "obs_shape"): "obs_shape", ("ObsObj", "aux_row"): "aux_row", ("ObsObj", "tensor"): "tensor"}
+STOREF = {("RawState", "tensor"): "tensor", ("ObsObj", "obs_shape"): "obs_shape", ("ObsObj", "aux_row"): "aux_row", ("ObsObj", "tensor"): "tensor"}
 
 
 class TrRaw(Tr):
@@ -246,6 +246,8 @@ class TrRaw(Tr):
             return tgt.id, newval
         if isinstance(tgt, ast.Attribute):
             o, t = self.expr(tgt.value, env)
+            if t == "HV" and tgt.attr == "vector":
+                return self.lvalue(tgt.value, newval, env)              # a raw host vector *is* its `vector`
             fld = STOREF.get((t, tgt.attr)) or self.err(tgt, f"store into attribute of {t}")
             return self.lvalue(tgt.value, f"{{ {o} with {fld} := {newval} }}", env)
         if isinstance(tgt, ast.Subscript):
@@ -468,6 +470,14 @@ def _class_consts(mod, cls):
             if isinstance(n, ast.Assign) and len(n.targets) == 1 and isinstance(n.targets[0], ast.Name)]
 
 
+def _setter_methods(mod, cls):
+    """setter nodes of @<name>.setter methods"""
+    tree = ast.parse(textwrap.dedent(inspect.getsource(mod)))
+    c = next(n for n in tree.body if isinstance(n, ast.ClassDef) and n.name == cls)
+    return {n.name: n for n in c.body if isinstance(n, ast.FunctionDef)
+            and any(ast.unparse(d).endswith(".setter") for d in n.decorator_list)}
+
+
 def _prop_methods(mod, cls):
     """getter nodes of @property methods (the setters are skipped)"""
     tree = ast.parse(textwrap.dedent(inspect.getsource(mod)))
@@ -525,6 +535,9 @@ def translate_observation():
     for nm, rt in (("compromised", "Int"), ("reachable", "Int"), ("discovered", "Int"), ("address", "Addr"),
                    ("value", "Int"), ("discovery_value", "Int"), ("access", "Int")):
         reg(hv_mod, "HostVector", "HV", nm, [], rt, prop=True)
+    for nm, pt in (("compromised", "Bool"), ("reachable", "Bool"), ("discovered", "Bool"), ("access", "Nat")):
+        fn = reg(hv_mod, "HostVector", "HV", "set_" + nm, [("val", pt)], None, mutates="self")
+        fn.setter = nm
     for nm, p in (("is_running_service", "srv"), ("is_running_os", "os"), ("is_running_process", "proc")):
         reg(hv_mod, "HostVector", "HV", nm, [(p, "Nat")], "Bool")
     # the defaults of observe's keywords
@@ -560,6 +573,7 @@ def translate_observation():
     reg(state_mod, "State", "RawState", "shape", [], "Shape")
     reg(state_mod, "State", "RawState", "get_host", [("host_addr", "Addr")], "HV")
     reg(state_mod, "State", "RawState", "get_host_idx", [("host_addr", "Addr")], "Nat")
+    reg(state_mod, "State", "RawState", "update_host", [("host_addr", "Addr"), ("host_vector", "HV")], None, mutates="self")
     reg(state_mod, "State", "RawState", "get_host_and_idx", [("host_addr", "Addr")], ("Nat", "HV"))
     reg(state_mod, "State", "RawState", "hosts", [], "HostList", prop=True)
     reg(state_mod, "State", "RawState", "get_initial_observation", [("fully_obs", "Bool")], "ObsObj")
@@ -574,7 +588,11 @@ def translate_observation():
         key = (mod.__name__, fn.cls)
         if key not in cache:
             cache[key] = (_methods(mod, fn.cls), _prop_methods(mod, fn.cls))
+        if key not in cache or len(cache[key]) < 3:
+            cache[key] = cache[key] + (_setter_methods(mod, fn.cls),)
         node = (cache[key][1] if fn.prop else cache[key][0]).get(fn.name)
+        if getattr(fn, "setter", None):
+            node = cache[key][2].get(fn.setter)
         try:
             if node is None:
                 raise Untranslatable(f"{fn.cls}.{fn.name} not found")
